@@ -43,6 +43,13 @@ pub fn strings(width: usize) -> Vec<(String, String)> {
             out.push((format!("colour-codes lead{lead} x{n}"), format!("{}{}", "x".repeat(lead), "^1a".repeat(n / 3 + 1).chars().take(n).collect::<String>())));
         }
     }
+    for lead in ["\u{feff}", "\u{200b}", "\u{fffe}", "\u{e01}"] {
+        for n in 0..=top {
+            // a leading character of no code page (byte order mark, zero width space, ...) is one '?'
+            // like any other: it counts towards the width
+            out.push((format!("no-page-lead {:x} x{n}", lead.chars().next().unwrap() as u32), format!("{lead}{}", "a".repeat(n))));
+        }
+    }
     // white space and control characters are ordinary text: nothing may trim or normalise them
     for t in [" ", "  ", " a", "a ", " a ", "a  b", "\t", "a\tb", "a\u{7f}", "\u{1}x", "x\r\n", "~{}[]"] {
         out.push((format!("ascii-odd {t:?}"), t.to_string()));
